@@ -2,7 +2,7 @@
 
 # property -> contract modules that carry obligations for it
 PROPERTY_MODULES = {
-    "C16": ["selection", "choicemap", "core_gfi", "combinators", "mcmc"],
+    "C16": ["selection", "choicemap", "core_gfi", "combinators", "mcmc", "fn_whole"],
     "C08": ["combinators", "pjax_vmap", "extra", "extra2"],
     "C14": ["seed", "pjax_vmap", "state", "extra", "extra2"],
     "C19": ["state", "extra", "extra2"],
@@ -11,17 +11,17 @@ PROPERTY_MODULES = {
     "C15": ["adev", "extra", "extra2"],
     "C13": ["distributions", "pjax_vmap", "extra", "extra2"],
     "C17": ["vi", "choicemap", "core_gfi", "adev"],
-    "C10": ["smc", "core_gfi", "combinators", "lemmas", "extra"],
+    "C10": ["smc", "core_gfi", "combinators", "lemmas", "extra", "fn_whole"],
     "C12": ["smc"],
     "C18": ["mcmc", "state"],
-    "C09": ["mcmc", "core_gfi", "combinators", "choicemap", "selection"],
+    "C09": ["mcmc", "core_gfi", "combinators", "choicemap", "selection", "fn_whole"],
     "C06": ["seed", "extra", "extra2"],
     "C07": ["seed", "extra", "pjax_vmap", "extra2"],
-    "C01": ["core_gfi", "combinators", "lemmas", "choicemap", "extra2"],
-    "C02": ["core_gfi", "combinators", "lemmas", "pjax_vmap", "extra2"],
-    "C03": ["core_gfi", "combinators", "lemmas", "choicemap", "extra2"],
-    "C04": ["core_gfi", "combinators", "selection", "extra2"],
-    "C05": ["core_gfi", "combinators", "lemmas", "mcmc", "extra", "choicemap", "extra2"],
+    "C01": ["core_gfi", "combinators", "lemmas", "choicemap", "extra2", "fn_whole"],
+    "C02": ["core_gfi", "combinators", "lemmas", "pjax_vmap", "extra2", "fn_whole"],
+    "C03": ["core_gfi", "combinators", "lemmas", "choicemap", "extra2", "fn_whole"],
+    "C04": ["core_gfi", "combinators", "selection", "extra2", "fn_whole"],
+    "C05": ["core_gfi", "combinators", "lemmas", "mcmc", "extra", "choicemap", "extra2", "fn_whole"],
 }
 
 A_REAL = "A-REAL: machine floats are treated as mathematical reals and ints as mathematical ints (no rounding, overflow, nan/inf)"
